@@ -54,6 +54,7 @@ type adapter struct {
 	norm      func(int) int          // canonical form of a requested value
 	transform func(cur, req int) int // model of the transformation function
 	set       func(int)              // Set
+	init      func(int)              // Init (documented as a setter that can be chained with the constructor)
 	compute   func(k int)            // Compute(cur -> cur+k)
 	defaultTo func(d int)            // DefaultTo
 	get       func() int             // Get
@@ -77,6 +78,7 @@ func newAdapter(kind string, clock *ctl.Clock) *adapter {
 		a.norm = func(x int) int { return b2i(x != 0) }
 		a.transform = func(cur, req int) int { return cur | req }
 		a.set = func(x int) { e.Set(x != 0) }
+		a.init = func(x int) { e.Init(x != 0) }
 		a.compute = func(k int) { e.Compute(func(c bool) bool { return b2i(c)+k != 0 }) }
 		a.defaultTo = func(d int) { e.DefaultTo(d != 0) }
 		a.get = func() int { return b2i(e.Get()) }
@@ -124,6 +126,7 @@ func newAdapter(kind string, clock *ctl.Clock) *adapter {
 		panic("unknown kind " + kind)
 	}
 	a.set = func(x int) { v.Set(x) }
+	a.init = func(x int) { v.Init(x) }
 	a.compute = func(k int) { v.Compute(func(c int) int { return c + k }) }
 	a.defaultTo = func(d int) { v.DefaultTo(d) }
 	a.get = v.Get
@@ -140,7 +143,7 @@ func newAdapter(kind string, clock *ctl.Clock) *adapter {
 // modelWrite returns the value the variable must hold after the given write when it currently holds cur.
 func (a *adapter) modelWrite(op string, arg, cur int) int {
 	switch op {
-	case "set":
+	case "set", "init":
 		return a.transform(cur, a.norm(arg))
 	case "compute":
 		return a.transform(cur, a.norm(cur+arg))
@@ -159,6 +162,8 @@ func (a *adapter) doWrite(op string, arg int) {
 	switch op {
 	case "set":
 		a.set(arg)
+	case "init":
+		a.init(arg)
 	case "compute":
 		a.compute(arg)
 	case "default":
